@@ -208,7 +208,7 @@ class LogNormalBirth(BaseBirth):
                 std_x = std[p]
                 # mu_log, std_lgo are the mean and std of the log dist.
                 mu_log = numpy.log(mu_x**2 / numpy.sqrt(mu_x**2 + std_x**2))
-                std_log = numpy.sqrt(numpy.log(1 + (std_x/mu_x)**2))
+                std_log = numpy.sqrt(numpy.log1p((std_x/mu_x)**2))
                 self._mu.update({p: mu_log})
                 self._std.update({p: std_log})
         except KeyError:
